@@ -23,7 +23,7 @@
 from typing import TYPE_CHECKING, List, Optional, Set, Tuple, Union, cast
 
 from .._cache import DNSCache, _UniqueRecordsType
-from .._dns import DNSAddress, DNSPointer, DNSQuestion, DNSRecord, DNSRRSet
+from .._dns import _RECENT_TIME_MS, DNSAddress, DNSPointer, DNSQuestion, DNSRecord, DNSRRSet
 from .._protocol.incoming import DNSIncoming
 from .._services.info import ServiceInfo
 from .._transport import _WrappedTransport
@@ -175,7 +175,11 @@ class _QueryResponse:
         if TYPE_CHECKING:
             record = cast(_UniqueRecordsType, record)
         maybe_entry = self._cache.async_get_unique(record)
-        return bool(maybe_entry is not None and maybe_entry.is_recent(self._now))
+        if maybe_entry is None:
+            return False
+        # The quarter is taken from the TTL of the record we are answering with; the
+        # cached copy can carry another one (pointer records are cached with a minimum TTL)
+        return bool(maybe_entry.created + (_RECENT_TIME_MS * record.ttl) > self._now)
 
     def _has_mcast_record_in_last_second(self, record: DNSRecord) -> bool:
         """Check if an answer was seen in the last second.
